@@ -1235,6 +1235,8 @@ def main(outfile):
     py2lean_timeunits.main_timeunits(os.path.join(os.path.dirname(outfile), 'TranslatedTimeUnits.lean'), write_if_changed)
     import py2lean_cron                                          # separate module: cron, TimeDate, TimeSpan (C07)
     py2lean_cron.main_cron(os.path.join(os.path.dirname(outfile), 'TranslatedCron.lean'), sys.modules[__name__])
+    import py2lean_cron_cfg                                      # separate module: construction / configuration of cron and its clients (C07)
+    py2lean_cron_cfg.main_cron_cfg(os.path.join(os.path.dirname(outfile), 'TranslatedCronCfg.lean'), sys.modules[__name__])
 
     import py2lean_interval                                      # separate module: interval notations, timeinterval.py (C13)
     py2lean_interval.main_interval(os.path.join(os.path.dirname(outfile), 'TranslatedInterval.lean'), write_if_changed)
@@ -1244,6 +1246,8 @@ def main(outfile):
     py2lean_errreg.main_errreg(os.path.join(os.path.dirname(outfile), 'TranslatedErrReg.lean'), sys.modules[__name__])
     import py2lean_wiring                                        # separate module: connect, _finalize, resolver, finalize (C15)
     py2lean_wiring.main_wiring(os.path.join(os.path.dirname(outfile), 'TranslatedWiring.lean'), write_if_changed)
+    import py2lean_csig                                          # separate module: check_signature, input_signature, start() of the library CBlocks (C15)
+    py2lean_csig.main_csig(os.path.join(os.path.dirname(outfile), 'TranslatedCsig.lean'), write_if_changed)
     import py2lean_initsb                                        # separate module: Circuit.init_sblock and the sync loops (C05)
     py2lean_initsb.main_initsb(os.path.join(os.path.dirname(outfile), 'TranslatedInitSb.lean'), sys.modules[__name__])
     import py2lean_fsmtimer
@@ -1251,6 +1255,16 @@ def main(outfile):
 
     import py2lean_fsmtables                                     # separate module: FSM tables, __init__, _run_cb, _send_events, _event (C03)
     py2lean_fsmtables.main_fsmtables(os.path.join(os.path.dirname(outfile), 'TranslatedFsmTables.lean'), write_if_changed)
+    import py2lean_cblocks                                       # separate module: library CBlocks, constructors and argument passing (C01)
+    py2lean_cblocks.main_cblocks(os.path.join(os.path.dirname(outfile), 'TranslatedCBlocks.lean'), sys.modules[__name__])
+    import py2lean_counter                                       # separate module: Counter.__init__ and its class-level aliases (C20)
+    py2lean_counter.main_counter(os.path.join(os.path.dirname(outfile), 'TranslatedCounter.lean'), sys.modules[__name__])
+    import py2lean_asyncinit                                     # separate module: async-init add-on, InitAsync, ValuePoll, small routines (C05)
+    py2lean_asyncinit.main_asyncinit(os.path.join(os.path.dirname(outfile), 'TranslatedAsyncInit.lean'), sys.modules[__name__])
+    import py2lean_ctor                                          # separate module: Event / Repeat constructors, task monitor (C18)
+    py2lean_ctor.main_ctor(os.path.join(os.path.dirname(outfile), 'TranslatedCtor.lean'), write_if_changed)
+    import py2lean_timerblk                                      # separate module: Timer, class FSM (C04)
+    py2lean_timerblk.main_timerblk(os.path.join(os.path.dirname(outfile), 'TranslatedTimerBlk.lean'), sys.modules[__name__])
     import py2lean_blkctor                                          # separate module: constructors, name rules, circuit registry (C14)
     py2lean_blkctor.main_blkctor(os.path.join(os.path.dirname(outfile), 'TranslatedBlkCtor.lean'), write_if_changed)
 
